@@ -369,4 +369,102 @@ theorem engineCopy_identity (env : Env) (fuel : Nat) (st : Stack) (b : Base)
       rw [continuation_identity env fuel _ _ hp1 ht.2.1 hbm]
       simp only [Out.prepend, List.append_nil, ht.1]
 
+/-! ### arbitrary interleavings of `Read` (any size, 0 included) and `TakeRelaySegments` -/
+
+theorem Base.read_flat (n : Nat) (b : Base) (h : (b.read n).1.err = none) :
+    b.flat = (b.read n).1.data ++ (b.read n).2.flat := by
+  unfold Base.read at h ⊢
+  cases hc : b.chunks with
+  | nil => simp [hc] at h
+  | cons c cs =>
+    simp only [hc]
+    by_cases hl : c.length ≤ n
+    · simp [hl, Base.flat, hc]
+    · simp only [hl, ↓reduceIte, Base.flat, hc, List.flatten_cons]
+      first | exact tad n c _ | exact tad' n c _
+
+/-- a zero-length `Read` never moves a byte in a way that loses it -/
+theorem Stack.read_zero (st : Stack) (b : Base) (hp : st.poisoned = false) :
+    (st.read 0 b).2.1.poisoned = false ∧
+    ((st.read 0 b).1.err = none →
+      st.content ++ b.flat = (st.read 0 b).1.data ++ ((st.read 0 b).2.1.content ++ (st.read 0 b).2.2.flat)) ∧
+    (∀ e, (st.read 0 b).1.err = some e → st.content ++ b.flat = (st.read 0 b).1.data) := by
+  cases st with
+  | plain =>
+    refine ⟨rfl, fun h => ?_, fun e h => ?_⟩
+    · simpa [Stack.read, Stack.content] using Base.read_flat 0 b h
+    · have := Base.read_some 0 b e h
+      simp [Stack.read, Stack.content, this.2.1, this.2.2]
+  | prefixed rest =>
+    by_cases hr : rest = []
+    · subst hr
+      refine ⟨by simp [Stack.read, Stack.poisoned], fun h => ?_, fun e h => ?_⟩
+      · simp only [Stack.read, List.isEmpty_nil, ↓reduceIte] at h ⊢
+        simpa [Stack.content] using Base.read_flat 0 b h
+      · simp only [Stack.read, List.isEmpty_nil, ↓reduceIte] at h ⊢
+        have := Base.read_some 0 b e h
+        simp [Stack.content, this.2.1, this.2.2]
+    · have hne : rest.isEmpty = false := by cases rest <;> simp_all
+      refine ⟨by simp [Stack.read, hne, Stack.poisoned], fun _ => ?_, fun e h => ?_⟩
+      · simp [Stack.read, hne, Stack.content]
+      · simp [Stack.read, hne] at h
+  | bufio bf =>
+    refine ⟨by simp [Stack.read, Stack.poisoned], fun _ => by simp [Stack.read, Stack.content],
+      fun e h => by simp [Stack.read] at h⟩
+  | sniffer buf p =>
+    have : p = false := by simpa [Stack.poisoned] using hp
+    subst this
+    by_cases hb : buf = []
+    · subst hb
+      refine ⟨by simp [Stack.read, Stack.poisoned], fun h => ?_, fun e h => ?_⟩
+      · simp only [Stack.read, Bool.false_eq_true, ↓reduceIte, List.isEmpty_nil, Bool.not_true] at h ⊢
+        simpa [Stack.content] using Base.read_flat 0 b h
+      · simp only [Stack.read, Bool.false_eq_true, ↓reduceIte, List.isEmpty_nil, Bool.not_true] at h ⊢
+        have := Base.read_some 0 b e h
+        simp [Stack.content, this.2.1, this.2.2]
+    · have hne : buf.isEmpty = false := by cases buf <;> simp_all
+      refine ⟨by simp [Stack.read, hne, Stack.poisoned], fun _ => by simp [Stack.read, hne, Stack.content],
+        fun e h => by simp [Stack.read, hne] at h⟩
+
+theorem Stack.read_any (n : Nat) (st : Stack) (b : Base) (hp : st.poisoned = false) :
+    (st.read n b).2.1.poisoned = false ∧
+    ((st.read n b).1.err = none →
+      st.content ++ b.flat = (st.read n b).1.data ++ ((st.read n b).2.1.content ++ (st.read n b).2.2.flat)) ∧
+    (∀ e, (st.read n b).1.err = some e → st.content ++ b.flat = (st.read n b).1.data) := by
+  rcases Nat.eq_zero_or_pos n with h0 | hpos
+  · subst h0; exact Stack.read_zero st b hp
+  · have spec := Stack.read_spec n hpos st b hp
+    exact ⟨spec.poison, fun h => (spec.none h).1, fun e h => (spec.some e h).2⟩
+
+theorem runActs_conserves :
+    ∀ (as : List Act) (st : Stack) (b : Base), st.poisoned = false →
+      (runActs as st b).1.flatten ++ ((runActs as st b).2.1.content ++ (runActs as st b).2.2.flat) =
+        st.content ++ b.flat ∨
+      (runActs as st b).1.flatten = st.content ++ b.flat := by
+  intro as
+  induction as with
+  | nil => intro st b _; left; simp [runActs]
+  | cons a as ih =>
+    intro st b hp
+    cases a with
+    | take =>
+      have ht := st.take_spec
+      simp only [runActs, List.flatten_cons]
+      rcases ih st.take.2 b (by rw [ht.2.2, hp]) with h | h
+      · left; rw [List.append_assoc, h, ht.1, ht.2.1, List.nil_append]
+      · right; rw [h, ht.1, ht.2.1, List.nil_append]
+    | read n =>
+      have spec := Stack.read_any n st b hp
+      simp only [runActs]
+      cases he : (st.read n b).1.err with
+      | none =>
+        simp only [List.flatten_cons]
+        rcases ih _ _ spec.1 with h | h
+        · left; rw [List.append_assoc, h]; exact (spec.2.1 he).symm
+        · right; rw [h]; exact (spec.2.1 he).symm
+      | some e =>
+        right
+        simp only [List.flatten_cons, List.flatten_nil, List.append_nil]
+        exact (spec.2.2 e he).symm
+
 end DaeVerif.C05
